@@ -111,8 +111,8 @@ PROPS["C09"] = dict(
         "prost / prost-reflect descriptors are trusted for the message structure; PartialEq of the value types is trusted as value equality",
         "held on the generated values only",
     ],
-    stages=[dict(name="public-types", flavour="release", **E2)],
-    floors={"quick": {"alternative_serialisations_differing_from_canonical": 50000, "packed_unpacked_variants": 5000, "construction_order_cases": 1000, "values_TimeoutQC": 1000, "values_Duration": 1000},
+    stages=[dict(name="public-types", flavour="release", **E2), dict(name="network-types", flavour="release", crate="net")],
+    floors={"quick": {"alternative_serialisations_differing_from_canonical": 50000, "packed_unpacked_variants": 5000, "construction_order_cases": 1000, "values_TimeoutQC": 1000, "values_Duration": 1000, "values_mux.Handshake": 1000, "values_rpc.consensus.Req": 1000},
             "thorough": {"packed_unpacked_variants": 50000}},
 )
 
